@@ -521,5 +521,5 @@ func c15PJGen(t *rapid.T) c15PJCase {
 func init() {
 	vfRapid("C15/perform-join",
 		"non-trivial = at most one scripted fault (unknown version, failed request, create event missing from the auth chain / of unknown version, one event with a bad signature / disallowed / without state key / duplicate, join not allowed by the state); distinct = distinct Case JSON",
-		500, 10000, 8, c15PJGen, c15PJCheck)
+		800, 20000, 8, c15PJGen, c15PJCheck)
 }
